@@ -270,6 +270,8 @@ class Engine:
         self.lineoffs = 0
         self.cur_line = None
         self.callee_stack = []
+        self.qmeta = {}
+        self.canaries = []
 
     def inline_defs(self):
         if not hasattr(self, "_defs"):
@@ -287,6 +289,18 @@ class Engine:
         if z3.is_true(goal):
             # still count it: trivially discharged
             pass
+        meta = self.qmeta.get(goal.get_id()) if kind == "loop.preserve" else None
+        if meta is not None and z3.eq(meta[0], goal):
+            # range-extension split (equivalent to the original goal):  forall k in [lo,hi). B(k)
+            #   <=>  forall k in [lo,hi-1). B(k)   and   (lo <= hi-1  ->  B(hi-1))
+            _, k, lo, hi, extra, body = meta
+            g1 = z3.ForAll([k], z3.Implies(z3.And(lo <= k, k < hi - 1, *extra), body))
+            last = z3.simplify(hi - 1)
+            g2 = z3.Implies(lo <= last, z3.substitute(z3.Implies(z3.And(*extra), body) if extra else body, (k, last)))
+            for suffix, g in (("a", g1), ("b", g2)):
+                self.obligations.append(Obligation(f"{self.prefix}/{name}.{suffix}", kind, self.axioms + st.pc, g,
+                                                   self.cur_line, st.trace))
+            return
         ob = Obligation(f"{self.prefix}/{name}", kind, self.axioms + st.pc, goal, self.cur_line, st.trace)
         self.obligations.append(ob)
 
@@ -312,7 +326,7 @@ class Engine:
                 fields[f].nd = True
             return self.new_obj(st, cls, fields)
         if kind.startswith("tuple("):
-            ks = [k.strip() for k in kind[6:-1].split(",")]
+            ks = [k.strip() for k in kind[6:-1].split(",") if k.strip()]
             return VTuple([self.fresh_of_kind(k, f"{name}.{i}", st) for i, k in enumerate(ks)])
         if kind.startswith("fn("):
             sig = kind[3:-1]
@@ -481,6 +495,9 @@ class Engine:
                 return
             v = self.truth(self.eval(e.values[i], st))
             vals.append(v)
+            sv = z3.simplify(v)
+            if (is_and and z3.is_false(sv)) or (not is_and and z3.is_true(sv)):
+                return          # short-circuit decided: later operands are never evaluated
             self.under(st, v if is_and else z3.Not(v), lambda: rec(i + 1))
         rec(0)
         return VNum(z3.And(*vals) if is_and else z3.Or(*vals))
@@ -566,12 +583,12 @@ class Engine:
             if not both_int:
                 raise Unsupported("// on reals")
             self.oblige(st, f"div-nonzero@L{self.cur_line}", "div-nonzero", y != 0)
-            return VNum(self.floordiv(x, y))
+            return VNum(self.floordiv(x, y, self.entails(st, y > 0)))
         if isinstance(op, ast.Mod):
             if not both_int:
                 raise Unsupported("% on reals")
             self.oblige(st, f"div-nonzero@L{self.cur_line}", "div-nonzero", y != 0)
-            return VNum(x - y * self.floordiv(x, y))
+            return VNum(x - y * self.floordiv(x, y, self.entails(st, y > 0)))
         if isinstance(op, ast.Pow):
             if is_const_int(y) and 0 <= y.as_long() <= 4:
                 r = z3.IntVal(1) if x.sort() == INT else z3.RealVal(1)
@@ -581,8 +598,19 @@ class Engine:
             raise Unsupported("** with non-constant exponent")
         raise Unsupported(f"operator {type(op).__name__}")
 
+    def entails(self, st, fact):
+        """Cheap syntactic-level help for the encoding: is `fact` implied by the current path condition?"""
+        s = z3.Solver()
+        s.set("rlimit", 400000)        # deterministic resource limit (not wall time): same encoding under load
+        s.set("timeout", 5000)
+        s.add(*[h for h in st.pc if not z3.is_quantifier(h)])
+        s.add(z3.Not(fact))
+        return s.check() == z3.unsat
+
     @staticmethod
-    def floordiv(x, y):
+    def floordiv(x, y, positive=False):
+        if positive:
+            return x / y
         # SMT-LIB div is Euclidean (remainder >= 0); Python floors.  They agree for y > 0; for y < 0:
         # floor(x/y) = -ceil(x/(-y)) = -((x + (-y) - 1) div (-y))  ==  (-x) floor-div (-y)... use identity
         # floor(x / y) = floor((-x) / (-y)) and for positive divisor d: floor(a/d) = a div d.
@@ -702,6 +730,16 @@ class Engine:
     def contains(self, container, item, st):
         if isinstance(container, VTuple):
             return z3.Or(*[self.equal(item, x, st) for x in container.items]) if container.items else z3.BoolVal(False)
+        if isinstance(container, VOpaque) and isinstance(item, (VStr, VNum)):
+            # membership in an unmodelled container: an uninterpreted predicate of the item (same answer every time)
+            return z3.Function(f"in.{container.tag}", item.z.sort(), BOOL)(item.z)
+        if isinstance(container, VOpaque) or isinstance(item, VOpaque):
+            return fresh("in", BOOL)
+        if isinstance(container, VSeq) and is_const_int(container.ln) and container.ln.as_long() <= 8:
+            n = container.ln.as_long()
+            if n == 0:
+                return z3.BoolVal(False)
+            return z3.Or(*[z3.Select(container.arr, j) == self.coerce(item, container.ek) for j in range(n)])
         if isinstance(container, VSeq):
             k = fresh("k", INT)
             return z3.Exists([k], z3.And(0 <= k, k < container.ln,
@@ -737,9 +775,11 @@ class Engine:
             return VConst(("method", base, e.attr))
         raise Unsupported(f"attribute {ast.unparse(e)}")
 
-    def norm_index(self, i, ln):
+    def norm_index(self, i, ln, st=None):
         if is_const_int(i):
             return i if i.as_long() >= 0 else ln + i
+        if st is not None and self.entails(st, i >= 0):
+            return i
         return z3.If(i < 0, ln + i, i)
 
     def e_Subscript(self, e, st):
@@ -778,7 +818,7 @@ class Engine:
                 raise Unsupported("non-integer index")
             self.oblige(st, f"index-in-bounds@L{self.cur_line}", "index-in-bounds",
                         z3.And(-base.ln <= i, i < base.ln))
-            return wrap(z3.Select(base.arr, self.norm_index(i, base.ln)))
+            return wrap(z3.Select(base.arr, self.norm_index(i, base.ln, st)))
         if isinstance(base, VStr):
             i = self.num(idx)
             ln = z3.Length(base.z)
@@ -897,7 +937,8 @@ class Engine:
                 return self.eval(e.args[0], s_old)
             if n in ("forall", "exists"):
                 lo = self.num(self.eval(e.args[0], st))
-                hi = self.num(self.eval(e.args[1], st))
+                unbounded = isinstance(e.args[1], ast.Name) and e.args[1].id == "INF"
+                hi = None if unbounded else self.num(self.eval(e.args[1], st))
                 lam = e.args[2]
                 if not isinstance(lam, ast.Lambda):
                     raise Unsupported("forall needs a lambda")
@@ -905,16 +946,29 @@ class Engine:
                 s2 = st.fork()
                 s2._old = getattr(st, "_old", None)
                 s2.env[lam.args.args[0].arg] = VNum(k)
+                rng = z3.And(lo <= k, k < hi) if hi is not None else (lo <= k)
+                s2.pc.append(rng)          # lets the encoder see that indices built from k are in range
+                npc = len(s2.pc)
                 self.spec_mode += 1
                 try:
                     body = self.truth(self.eval(lam.body, s2))
                 finally:
                     self.spec_mode -= 1
                 # definitional hypotheses created while evaluating the body (slices etc.)
-                extra = s2.pc[len(st.pc):]
-                rng = z3.And(lo <= k, k < hi)
+                extra = s2.pc[npc:]
+                pats = []
+                if len(e.args) > 3:            # optional 4th argument: lambda k: <trigger term>
+                    self.spec_mode += 1
+                    try:
+                        pv = self.eval(e.args[3].body, s2)
+                    finally:
+                        self.spec_mode -= 1
+                    pats = [pv.z]
                 if n == "forall":
-                    return VNum(z3.ForAll([k], z3.Implies(z3.And(rng, *extra), body)))
+                    q = z3.ForAll([k], z3.Implies(z3.And(rng, *extra), body), patterns=pats)
+                    if hi is not None:
+                        self.qmeta[q.get_id()] = (q, k, lo, hi, extra, body)
+                    return VNum(q)
                 return VNum(z3.Exists([k], z3.And(rng, *extra, body)))
             if n == "implies":
                 a = self.truth(self.eval(e.args[0], st))
@@ -978,7 +1032,20 @@ class Engine:
                 return self.call_builtin(dotted, args, kwargs, st, e)
             if isinstance(py, tuple) and py[0] == "method":
                 return self.call_method(py[1], py[2], args, kwargs, st, e)
+        if isinstance(fv, VOpaque):
+            return self.opaque_call(f"<opaque {fv.tag}>", st, e)
         raise Unsupported(f"call {ast.unparse(e)}")
+
+    def opaque_call(self, name, st, e):
+        """A call the contract declares irrelevant to the clause being proved: result unknown, and it is counted in
+        the ghost `effects` (so 'raises BEFORE any result-producing call' is expressible)."""
+        if not self.c.get("unknown_calls") == "opaque":
+            raise Unsupported(f"call to {name} (no contract, no abstraction)")
+        if not self.spec_mode:
+            cur = st.ghost.get("effects", VNum(z3.IntVal(0)))
+            st.ghost["effects"] = VNum(cur.z + 1)
+            self.assumed.append(f"opaque call {name}")
+        return VOpaque(f"ret:{name}")
 
     def dotted(self, py):
         if isinstance(py, str):
@@ -1092,7 +1159,9 @@ class Engine:
             return VIter("zip", args)
         if name in self.registry:
             return self.call_contract(self.registry[name], None, args, kwargs, st, e)
-        raise Unsupported(f"call to {name} (no contract, no abstraction)")
+        if name == "super":
+            return VOpaque("super")
+        return self.opaque_call(name, st, e)
 
     def call_method(self, recv, meth, args, kwargs, st, e):
         abst = self.c.get("abstractions", {})
@@ -1103,7 +1172,9 @@ class Engine:
                 return abst[key](self, st, [recv] + args, kwargs, e)
             if key in self.registry:
                 return self.call_contract(self.registry[key], recv, args, kwargs, st, e)
-            raise Unsupported(f"method {key} has no contract")
+            if meth in self.registry and self.registry[meth].get("any_class"):
+                return self.call_contract(self.registry[meth], recv, args, kwargs, st, e)
+            return self.opaque_call(key, st, e)
         if isinstance(recv, VSeq):
             # mutation of a list: needs the receiver expression to rebind
             tgt = e.func.value
@@ -1133,6 +1204,8 @@ class Engine:
         if key in abst:
             self.assumed.append(key)
             return abst[key](self, st, [recv] + args, kwargs, e)
+        if isinstance(recv, VOpaque):
+            return self.opaque_call(f"{recv.tag}.{meth}", st, e)
         raise Unsupported(f"method .{meth} on {recv}")
 
     # ---- modular call through a contract
@@ -1241,7 +1314,7 @@ class Engine:
                 i = self.num(self.eval(sl, st))
                 self.oblige(st, f"index-in-bounds@L{self.cur_line}", "index-in-bounds",
                             z3.And(-base.ln <= i, i < base.ln))
-                new = VSeq(z3.Store(base.arr, self.norm_index(i, base.ln), self.coerce(val, base.ek)), base.ln, base.ek)
+                new = VSeq(z3.Store(base.arr, self.norm_index(i, base.ln, st), self.coerce(val, base.ek)), base.ln, base.ek)
                 new.nd = getattr(base, "nd", False)
                 if getattr(val, "borrowed", False) and not new.nd:
                     new.borrowed = True        # a python list now holds a reference to the caller's array
@@ -1264,9 +1337,9 @@ class Engine:
 
     def feasible(self, st, extra):
         s = z3.Solver()
-        s.set("timeout", 1500)
-        s.add(*self.axioms)
-        s.add(*st.pc)
+        s.set("rlimit", 800000)        # deterministic; `unknown` keeps the branch (sound: more paths, never fewer)
+        s.set("timeout", 10000)
+        s.add(*[h for h in st.pc if not z3.is_quantifier(h)])
         s.add(extra)
         return s.check() != z3.unsat
 
@@ -1276,13 +1349,32 @@ class Engine:
         m = getattr(self, "s_" + type(s).__name__, None)
         if m is None:
             raise Unsupported(f"statement {type(s).__name__}: {ast.unparse(s)[:80]}")
+        if isinstance(s, (ast.Expr, ast.Assign, ast.AugAssign, ast.AnnAssign, ast.Return)):
+            # simple statements: evaluate eagerly so that exceptional exits of contract calls made while
+            # evaluating the statement are collected before anything later runs
+            outs = list(m(s, st))
+            pend, self.pending_raises = self.pending_raises, []
+            for s_exc, exc in pend:
+                yield s_exc, ("raise", exc)
+            for out in outs:
+                yield out
+            return
         for out in m(s, st):
             yield out
-        pend, self.pending_raises = self.pending_raises, []
-        for s_exc, exc in pend:
-            yield s_exc, ("raise", exc)
 
     def s_Pass(self, s, st):
+        yield st, None
+
+    def s_FunctionDef(self, s, st):
+        st.env[s.name] = VOpaque(f"closure:{s.name}")
+        yield st, None
+
+    def s_Import(self, s, st):
+        yield st, None
+
+    def s_ImportFrom(self, s, st):
+        for a in s.names:
+            st.env.setdefault(a.asname or a.name, VConst(a.asname or a.name))
         yield st, None
 
     def s_Expr(self, s, st):
@@ -1384,7 +1476,8 @@ class Engine:
                 if f in st.heap[ref]:
                     st.heap[ref][f] = self.havoc_value(st.heap[ref][f], f"{o}.{f}", st)
         for g in list(st.ghost):
-            st.ghost[g] = self.havoc_value(st.ghost[g], g, st)
+            if g in getattr(self, "_loop_ghosts", ()) or g.startswith("calls_"):
+                st.ghost[g] = self.havoc_value(st.ghost[g], g, st)
 
     def havoc_value(self, v, name, st):
         if isinstance(v, VNum):
@@ -1407,16 +1500,51 @@ class Engine:
             return VOpaque(name) if isinstance(v, VNone) else v
         raise Unsupported(f"havoc {v}")
 
+    def objects_in(self, st):
+        out = []
+
+        def rec(v):
+            if isinstance(v, VObj):
+                if v.ref in st.heap and all(o.ref != v.ref for o in out):
+                    out.append(v)
+            elif isinstance(v, VTuple):
+                for x in v.items:
+                    rec(x)
+        for v in st.env.values():
+            rec(v)
+        return out
+
     def check_invs(self, st, spec, idx, phase, counter_name, counter_val, entry):
         env = {counter_name: VNum(counter_val)} if counter_name else {}
         for j, inv in enumerate(spec.get("invariant", [])):
             g = self.eval_clause(inv, st, env, old=entry)
             self.oblige(st, f"loop{idx}.{phase}#{j}", f"loop.{phase}", g)
+        # class invariants of every live object are implicit loop invariants
+        for o in self.objects_in(st):
+            if self.c.get("constructor") and st.env.get("self") is o:
+                continue
+            for j, inv in enumerate(self.classes.get(o.cls, {}).get("invariant", [])):
+                g = self.eval_clause(inv, st, {"self": o})
+                self.oblige(st, f"loop{idx}.{phase}.classinv#{j}:{o.cls}", f"loop.{phase}", g)
 
     def assume_invs(self, st, spec, counter_name, counter_val, entry):
         env = {counter_name: VNum(counter_val)} if counter_name else {}
+        for o in self.objects_in(st):
+            if self.c.get("constructor") and st.env.get("self") is o:
+                continue
+            for inv in self.class_invariant(st, o):
+                st.assume(inv)
         for inv in spec.get("invariant", []):
             st.assume(self.eval_clause(inv, st, env, old=entry))
+
+    def apply_lemmas(self, st, spec, idx, env, entry):
+        """Arithmetic lemmas: each is FIRST proved as its own obligation with no hypotheses at all (so it is a
+        valid fact about integers/reals), THEN assumed.  They only help the solver; nothing is taken on trust."""
+        for j, text in enumerate(spec.get("lemmas", [])):
+            g = self.eval_clause(text, st, env, old=entry)
+            ob = Obligation(f"{self.prefix}/loop{idx}.lemma#{j}", "lemma", [], g, self.cur_line, st.trace)
+            self.obligations.append(ob)
+            st.assume(g)
 
     def s_For(self, s, st):
         if s.orelse:
@@ -1457,6 +1585,7 @@ class Engine:
         # ghost initialisation
         for g, init in spec.get("ghost", {}).items():
             st.ghost[g] = self.eval(ast.parse(init, mode="eval").body, st)
+            self._loop_ghosts = set(getattr(self, "_loop_ghosts", ())) | {g}
         # init
         self.check_invs(st, spec, idx, "init", cname, z3.IntVal(0), entry)
         names, fields = assigned_names(s.body)
@@ -1468,6 +1597,8 @@ class Engine:
         body_st.assume(z3.And(0 <= k, k < n))
         self.assume_invs(body_st, spec, cname, k, entry)
         bind(k, body_st)
+        self.apply_lemmas(body_st, spec, idx, {cname: VNum(k)}, entry)
+        self.canaries.append((f"loop{idx}.head", self.axioms + list(body_st.pc)))
         body_st.trace.append(f"L{s.lineno}:loop{idx}.body")
         saved_counter = self.loop_counter
         for s2, sig in self.exec_block(s.body, body_st):
